@@ -152,8 +152,22 @@ def _folder_case(tag, g, inline=None):
         cs.value = None
         cs.raw = "compound"
         return cs
+    # an inner block among the statements is read as its statements (a temporary declared next to its use)
+    flat = []
+    for st in stmts:
+        if st is not None and st["k"] == "CompoundStmt":
+            flat.extend(x for x in st["c"] if x is not None)
+        else:
+            flat.append(st)
+    stmts = flat
     for st in stmts:
         k = st["k"]
+        if k == "DeclStmt":
+            for d in st.get("decls", []):
+                if d.get("init") is not None and d.get("did") is not None:
+                    locals_[d["did"]] = norm(d["init"], env)
+                    cs.rewrites.add("single-assignment temporary substituted")
+            continue
         if k == "IfStmt":
             cond, then = st["c"][0], st["c"][1]
             c = strip(cond)
